@@ -23,13 +23,20 @@
         growth, shrink with the truncate that follows - the per-page cache
         agrees with the file page by page and every reported checksum is the
         from-scratch checksum of the database file (C04_journal_history).
-   NOT proved (C04_history_partial): the same composition through WAL-mode
-   transactions, checkpoints, Open and replicated apply; it is re-checked on
+     6. (round 8) continued into WAL mode: after any such history, the
+        transaction that rewrites page 1 with the WAL versions, then ANY
+        number of WAL commits (growth, shrink, repeated pages): every reported
+        checksum is the from-scratch checksum of the logical database - the
+        file at the switch overlaid with the last frame of every page each
+        transaction wrote - and LiteFS's per-page answer is that database's
+        entry (C04_wal_history).
+   NOT proved (C04_history_partial): the same composition through
+   checkpoints, the way back out of WAL mode, Open and replicated apply; it is re-checked on
    every run by the correspondence (the model re-executes every generated
    history and must reproduce every reported position) and by the harness'
    raw-file recomputation. *)
 From Coq Require Import NArith List Bool.
-Require Import LF.Gen.ConstsGen LF.Model.PageDB LF.Proofs.XorLib LF.Proofs.ChecksumProofs LF.Proofs.HistoryProofs.
+Require Import LF.Gen.ConstsGen LF.Model.PageDB LF.Proofs.XorLib LF.Proofs.ChecksumProofs LF.Proofs.CaptureProofs LF.Proofs.HistoryProofs LF.Proofs.WalHistoryProofs.
 Import ListNotations.
 Local Open Scope N_scope.
 
@@ -113,3 +120,39 @@ Example C04_journal_history_nonvacuous :
   | None => False
   end.
 Proof. exact journal_history_example. Qed.
+
+(* Into WAL mode.  [hs]: any rollback-journal history as above; then one more rollback-journal transaction [zf acts c] whose
+   pages may carry anything ([wf_tx_any]) and which leaves the database in WAL mode - SQLite rewrites page 1 with the WAL
+   versions; then [ws]: any number of committed WAL transactions, each the frames in write order and the size its commit
+   frame names, of which [wf_wals] asks what SQLite guarantees: every page the database gains is among the frames, and
+   page 1, when written, keeps the WAL versions.  [overlay] (which [run_wal] folds over [ws]) is the logical database:
+     overlay lock frames commit v p = checksum of the last frame for p, if p is not the lock page, p <= commit and the
+     transaction wrote p; else v p.
+   For EVERY such history: the position's checksum is the from-scratch checksum of that logical database, and what
+   LiteFS answers for a page's checksum ([eff], pageChecksum of db.go) is its entry there. *)
+Theorem C04_wal_history : forall lock hs zf acts c ws s1 s2 s' v',
+  1 <= lock -> wf_hist (init lock) hs -> run_hsteps (init lock) hs = Some s1 ->
+  wf_tx_any s1 zf acts -> run_group s1 (hops s1 (HTx zf acts c)) = (0, s2) -> wal_mode s2 = true ->
+  wf_wals s2 ws -> run_wal s2 (file_h s2) ws = Some (s', v') ->
+  chk s' = scratch (fun p => if p =? lock then 0 else v' p) (pageN s') /\
+  (forall p, 1 <= p <= pageN s' -> p <> lock -> eff s' (pageN s') [] p = v' p) /\ lockpg s' = lock.
+Proof. exact wal_history_checksum. Qed.
+Print Assumptions C04_wal_history.
+
+(* Non-vacuity: two pages in rollback-journal mode, the switch, then three WAL transactions - one grows the database to 3
+   pages and writes page 2 twice, one shrinks it to 2, one grows it again *)
+Example C04_wal_history_nonvacuous :
+  let pg h := mkPg (fl h) 0 false in
+  let pw h := mkPg (fl h) 0 true in
+  let hs := [HTx [] [AWrite 1 (pg 11); AWrite 2 (pg 12)] 2] in
+  let sw := [AWrite 1 (pw 13)] in
+  let ws : list wstep := [([(2, pw 22); (3, pw 33); (2, pw 23)], 3); ([(1, pw 14)], 2); ([(3, pw 35); (1, pw 15)], 3)] in
+  exists s1 s2,
+    wf_hist (init 2097153) hs /\ run_hsteps (init 2097153) hs = Some s1 /\
+    wf_tx_any s1 [] sw /\ run_group s1 (hops s1 (HTx [] sw 2)) = (0, s2) /\ wal_mode s2 = true /\
+    wf_wals s2 ws /\
+    match run_wal s2 (file_h s2) ws with
+    | Some (s', v') => (txid s', pageN s', chk s' =? fl (N.lxor (N.lxor (fl 15) (fl 23)) (fl 35)), v' 2 =? fl 23) = (5, 3, true, true)
+    | None => False
+    end.
+Proof. exact wal_history_example. Qed.
